@@ -1584,3 +1584,245 @@ Proof.
 Qed.
 
 End I3Refine.
+
+(* ------------------------------------------------------------------ part 7
+   "as fresh" statements for the i3 ratio machine and the two-dataset machine.
+   The specifications srun / msrun keep what the objects are GIVEN (the trial,
+   the source, the ns-gradients of the last evaluation, the null-hypothesis
+   value of the trial); these theorems say that after a new trial nothing of
+   the earlier history is left in the observations. *)
+Section FreshSpec.
+Variable W : world.
+Variable C : cfg.
+
+Lemma sstep_consistent s o : sconsistent W C s -> sconsistent W C (fst (sstep W C s o)).
+Proof.
+  unfold sconsistent, srcf_of. intros H. destruct o as [d|ns x|s'|ns]; cbn.
+  - exact H.
+  - destruct (ss_view s); [destruct (ss_evd s)|]; cbn; exact H.
+  - destruct (has_src_fields C); [reflexivity | exact H].
+  - exact H.
+Qed.
+
+Lemma sfinal_inv ops : forall s, sconsistent W C s ->
+  sconsistent W C (sfinal W C s ops) /\ ss_cur (sfinal W C s ops) = src_after W (ss_cur s) ops.
+Proof.
+  induction ops as [|o r IH]; intros s H; [auto|]. cbn [sfinal].
+  destruct (IH _ (sstep_consistent s o H)) as (A & B). split; [exact A|]. rewrite B.
+  destruct o as [d|ns x|s'|ns]; cbn; try reflexivity.
+  destruct (ss_view s); [destruct (ss_evd s)|]; reflexivity.
+Qed.
+
+(* on objects without caches: evaluation / second derivative in a new trial
+   do not depend on the history before that trial *)
+Theorem srun_eval_fresh s0 pre d mid ns x :
+  forallb (is_query W) mid = true ->
+  last (srun W C (sinit W C s0) (pre ++ InitTrial W d :: mid ++ [Evaluate W ns x])) (ONone W) =
+  last (srun W C (sinit W C (src_after W s0 pre)) [InitTrial W d; Evaluate W ns x]) (ONone W).
+Proof.
+  intros Hq. rewrite srun_app.
+  destruct (sfinal_inv pre _ (sinit_consistent W C s0)) as (Hc & Ec). cbn [ss_cur sinit] in Ec.
+  rewrite (L_eval W C _ d mid ns x Hc Hq), last_mid, Ec.
+  change [InitTrial W d; Evaluate W ns x] with (InitTrial W d :: [] ++ [Evaluate W ns x]).
+  rewrite (L_eval W C _ d [] ns x (sinit_consistent W C _) eq_refl). reflexivity.
+Qed.
+
+Theorem srun_ns2_fresh s0 pre d mid ns x tail n :
+  forallb (is_query W) mid = true -> forallb (is_ns2 W) tail = true ->
+  last (srun W C (sinit W C s0) (pre ++ InitTrial W d :: (mid ++ Evaluate W ns x :: tail) ++ [NsGrad2 W n])) (ONone W) =
+  last (srun W C (sinit W C (src_after W s0 pre)) [InitTrial W d; Evaluate W ns x; NsGrad2 W n]) (ONone W).
+Proof.
+  intros Hq Ht. rewrite srun_app.
+  destruct (sfinal_inv pre _ (sinit_consistent W C s0)) as (Hc & Ec). cbn [ss_cur sinit] in Ec.
+  rewrite (L_ns2 W C _ d mid ns x tail n Hc Hq Ht), last_mid, Ec.
+  change [InitTrial W d; Evaluate W ns x; NsGrad2 W n]
+    with (InitTrial W d :: ([] ++ Evaluate W ns x :: []) ++ [NsGrad2 W n]).
+  rewrite (L_ns2 W C _ d [] ns x [] n (sinit_consistent W C _) eq_refl eq_refl). reflexivity.
+Qed.
+
+End FreshSpec.
+
+Section I3Fresh.
+Variable W : world.
+Variable C : cfg.
+Hypothesis Hgrid : grid_ok W.
+Hypothesis Hfree : memo_free C = true.
+
+Theorem i3_eval_fresh s0 pre d mid ns x :
+  forallb (is_query W) mid = true ->
+  last (i3observations W C (i3init W C s0) (pre ++ InitTrial W d :: mid ++ [Evaluate W ns x])) (ONone W) =
+  last (i3observations W C (i3init W C (src_after W s0 pre)) [InitTrial W d; Evaluate W ns x]) (ONone W).
+Proof. intros Hq. rewrite !(i3refines W C Hgrid Hfree). apply srun_eval_fresh, Hq. Qed.
+
+Theorem i3_ns2_fresh s0 pre d mid ns x tail n :
+  forallb (is_query W) mid = true -> forallb (is_ns2 W) tail = true ->
+  last (i3observations W C (i3init W C s0)
+          (pre ++ InitTrial W d :: (mid ++ Evaluate W ns x :: tail) ++ [NsGrad2 W n])) (ONone W) =
+  last (i3observations W C (i3init W C (src_after W s0 pre)) [InitTrial W d; Evaluate W ns x; NsGrad2 W n]) (ONone W).
+Proof. intros Hq Ht. rewrite !(i3refines W C Hgrid Hfree). apply srun_ns2_fresh; assumption. Qed.
+
+End I3Fresh.
+
+Section MultiFresh.
+Variable W : world.
+Variable C : cfg.
+Variable MW : mworld W.
+Variable MC : mcfg.
+
+Definition msok (c : src W) (s : msstate W MW) : Prop :=
+  sconsistent W C (p1 W MW s) /\ sconsistent W C (p2 W MW s) /\ ss_cur (p1 W MW s) = c /\ ss_cur (p2 W MW s) = c.
+
+Lemma sstep_eval_cur s ns x : ss_cur (fst (sstep W C s (Evaluate W ns x))) = ss_cur s.
+Proof. cbn. destruct (ss_view s); [destruct (ss_evd s)|]; reflexivity. Qed.
+
+Lemma mseval2_ok c s ns x : msok c s -> msok c (fst (mseval2 W C MW s ns x)).
+Proof.
+  intros (A & B & Ea & Eb). unfold mseval2.
+  pose proof (sstep_consistent W C (p1 W MW s) (Evaluate W (nsf MW (ss_cur (p1 W MW s)) 0 ns) x) A) as A'.
+  pose proof (sstep_eval_cur (p1 W MW s) (nsf MW (ss_cur (p1 W MW s)) 0 ns) x) as Ca.
+  destruct (sstep W C (p1 W MW s) (Evaluate W (nsf MW (ss_cur (p1 W MW s)) 0 ns) x)) as [a o1]. cbn [fst] in *.
+  destruct (obs_eval W o1).
+  - pose proof (sstep_consistent W C (p2 W MW s) (Evaluate W (nsf MW (ss_cur (p1 W MW s)) 1 ns) x) B) as B'.
+    pose proof (sstep_eval_cur (p2 W MW s) (nsf MW (ss_cur (p1 W MW s)) 1 ns) x) as Cb.
+    destruct (sstep W C (p2 W MW s) (Evaluate W (nsf MW (ss_cur (p1 W MW s)) 1 ns) x)) as [b o2]. cbn [fst] in *.
+    destruct (obs_eval W o2); cbn; unfold msok; cbn; repeat split; congruence.
+  - cbn. unfold msok; cbn. repeat split; congruence.
+Qed.
+
+Lemma msstep_ok c s o : msok c s -> msok (msrc_after W c [o]) (fst (msstep W C MW MC s o)).
+Proof.
+  intros H. pose proof H as (A & B & Ea & Eb). destruct o as [d1 d2|ns x|sr|n]; cbn [msstep msrc_after].
+  - assert (H1 : msok c (mkms W MW (fst (sstep W C (p1 W MW s) (InitTrial W d1))) (fst (sstep W C (p2 W MW s) (InitTrial W d2)))
+                          (p_l0 W MW s) (p_wsrc W MW s))).
+    { unfold msok; cbn. repeat split; try assumption. }
+    destruct (m_profile MC); [|exact H1].
+    pose proof (mseval2_ok c _ (m_ns0 MC) (m_x0 MC) H1) as H2.
+    destruct (mseval2 W C MW _ (m_ns0 MC) (m_x0 MC)) as [s2 r]. cbn [fst] in H2.
+    destruct r; cbn [fst]; [|exact H2]. destruct H2 as (a & b & e1 & e2). unfold msok; cbn; auto.
+  - pose proof (mseval2_ok c s ns x H) as H2. destruct (mseval2 W C MW s ns x) as [s2 r]. exact H2.
+  - unfold msok; cbn. repeat split.
+    + apply (sstep_consistent W C (p1 W MW s) (ChangeSource W sr) A).
+    + apply (sstep_consistent W C (p2 W MW s) (ChangeSource W sr) B).
+  - exact H.
+Qed.
+
+Lemma msfinal_ok ops : forall c s, msok c s -> msok (msrc_after W c ops) (msfinal W C MW MC s ops).
+Proof.
+  induction ops as [|o r IH]; intros c s H; [exact H|]. cbn [msfinal].
+  replace (msrc_after W c (o :: r)) with (msrc_after W (msrc_after W c [o]) r) by (destruct o; reflexivity).
+  apply IH, msstep_ok, H.
+Qed.
+
+Lemma last_app_ne {A} (l1 l2 : list A) d : l2 <> [] -> last (l1 ++ l2) d = last l2 d.
+Proof.
+  intros H. induction l1 as [|a r IH]; [reflexivity|]. cbn [app].
+  destruct (r ++ l2) eqn:E; [destruct r; [cbn in E; congruence | discriminate]|]. exact IH.
+Qed.
+
+Lemma msrun_ne s o r : msrun W C MW MC s (o :: r) <> [].
+Proof. cbn [msrun]. destruct (msstep W C MW MC s o). discriminate. Qed.
+
+Lemma msrun_app a : forall s b,
+  msrun W C MW MC s (a ++ b) = msrun W C MW MC s a ++ msrun W C MW MC (msfinal W C MW MC s a) b.
+Proof.
+  induction a as [|o r IH]; intros s b; [reflexivity|]. cbn [app msrun msfinal].
+  destruct (msstep W C MW MC s o) as [s' ob]. cbn [fst]. rewrite IH. reflexivity.
+Qed.
+
+(* the evaluation of both datasets does not read the remembered null-hypothesis
+   value nor the weight factors of an earlier evaluation *)
+Lemma mseval2_indep A B l w l' w' ns x :
+  mseval2 W C MW (mkms W MW A B l w) ns x =
+  (mkms W MW (p1 W MW (fst (mseval2 W C MW (mkms W MW A B l' w') ns x)))
+             (p2 W MW (fst (mseval2 W C MW (mkms W MW A B l' w') ns x))) l (Some (ss_cur A)),
+   snd (mseval2 W C MW (mkms W MW A B l' w') ns x)).
+Proof.
+  unfold mseval2; cbn [p1 p2 p_l0 p_wsrc].
+  destruct (sstep W C A (Evaluate W (nsf MW (ss_cur A) 0 ns) x)) as [a o1].
+  destruct (obs_eval W o1); [|reflexivity].
+  destruct (sstep W C B (Evaluate W (nsf MW (ss_cur A) 1 ns) x)) as [b o2].
+  destruct (obs_eval W o2); reflexivity.
+Qed.
+
+(* T5': on objects without caches, [init both trials; evaluate] after ANY
+   history equals the same on fresh objects for the current source hypothesis
+   (with the ns-profile function: provided the null-hypothesis evaluation of the
+   new trial returns a value) *)
+Theorem ms_eval_fresh s0 pre d1 d2 ns x :
+  m_profile MC = false \/
+  hd (MNone W MW) (msrun W C MW MC (msinit W C MW (msrc_after W s0 pre)) [MInit W d1 d2]) = MInitO W MW (Ok 0) ->
+  last (msrun W C MW MC (msinit W C MW s0) (pre ++ [MInit W d1 d2; MEval W ns x])) (MNone W MW) =
+  last (msrun W C MW MC (msinit W C MW (msrc_after W s0 pre)) [MInit W d1 d2; MEval W ns x]) (MNone W MW).
+Proof.
+  intros Hp. rewrite msrun_app, (last_app_ne _ _ _ (msrun_ne _ _ _)).
+  assert (H0 : forall c, msok c (msinit W C MW c))
+    by (intros c0; unfold msok, msinit; cbn; repeat split; try reflexivity; apply sinit_consistent).
+  set (c := msrc_after W s0 pre) in *.
+  pose proof (msfinal_ok pre s0 _ (H0 s0)) as (A & B & Ea & Eb). fold c in Ea, Eb.
+  set (sp := msfinal W C MW MC (msinit W C MW s0) pre) in *.
+  assert (Hgen : forall s, msok c s ->
+    last (msrun W C MW MC s [MInit W d1 d2; MEval W ns x]) (MNone W MW) =
+    last (msrun W C MW MC (mkms W MW (p1 W MW s) (p2 W MW s) None None) [MInit W d1 d2; MEval W ns x]) (MNone W MW) \/
+    (m_profile MC = true /\
+     forall v, snd (mseval2 W C MW (mkms W MW (trial_state W C c d1 None) (trial_state W C c d2 None) None None)
+                      (m_ns0 MC) (m_x0 MC)) <> Ok v)).
+  { intros s (Sa & Sb & Ca & Cb). cbn [msrun msstep p1 p2 p_l0 p_wsrc].
+    rewrite (sstep_init_trial W C _ d1 Sa), (sstep_init_trial W C _ d2 Sb), Ca, Cb. cbn [fst].
+    destruct (m_profile MC) eqn:Ep.
+    - rewrite (mseval2_indep _ _ (p_l0 W MW s) (p_wsrc W MW s) None None).
+      destruct (mseval2 W C MW (mkms W MW (trial_state W C c d1 None) (trial_state W C c d2 None) None None)
+                  (m_ns0 MC) (m_x0 MC)) as [s2 r] eqn:Ee. cbn [fst snd].
+      destruct r as [v|e].
+      + left. rewrite (mseval2_indep _ _ None None None None) in Ee. cbn [trial_state ss_cur] in *.
+        injection Ee as E1 E2. cbn [p1 p2 p_l0 p_wsrc]. cbn [trial_state ss_cur]. reflexivity.
+      + right. split; [reflexivity|]. intros v E'. discriminate.
+    - left. cbn [last].
+      rewrite (mseval2_indep _ _ (p_l0 W MW s) (p_wsrc W MW s) None None).
+      destruct (mseval2 W C MW (mkms W MW (trial_state W C c d1 None) (trial_state W C c d2 None) None None) ns x)
+        as [s2 r]. cbn [fst snd]. reflexivity. }
+  assert (Hfresh : msrun W C MW MC (msinit W C MW c) [MInit W d1 d2; MEval W ns x] =
+                   msrun W C MW MC (mkms W MW (p1 W MW (msinit W C MW c)) (p2 W MW (msinit W C MW c)) None None)
+                     [MInit W d1 d2; MEval W ns x]) by reflexivity.
+  destruct (Hgen sp (conj A (conj B (conj Ea Eb)))) as [E|[Ep Hno]].
+  - rewrite E.
+    destruct (Hgen (msinit W C MW c) (H0 c)) as [E2|[Ep Hno]].
+    + rewrite E2. unfold msinit. cbn [msrun msstep p1 p2 p_l0 p_wsrc].
+      rewrite (sstep_init_trial W C _ d1 A), (sstep_init_trial W C _ d2 B), Ea, Eb.
+      rewrite (sstep_init_trial W C _ d1 (sinit_consistent W C c)), (sstep_init_trial W C _ d2 (sinit_consistent W C c)).
+      reflexivity.
+    + exfalso. destruct Hp as [Hp|Hp]; [congruence|].
+      unfold msinit in Hp. cbn [msrun msstep hd p1 p2 p_l0 p_wsrc] in Hp.
+      rewrite (sstep_init_trial W C _ d1 (sinit_consistent W C c)), (sstep_init_trial W C _ d2 (sinit_consistent W C c)), Ep in Hp.
+      cbn [fst ss_cur sinit] in Hp.
+      destruct (mseval2 W C MW (mkms W MW (trial_state W C c d1 None) (trial_state W C c d2 None) None None)
+                  (m_ns0 MC) (m_x0 MC)) as [s2 r] eqn:Ee.
+      destruct r as [v|e]; [apply (Hno v); reflexivity | cbn in Hp; discriminate].
+  - exfalso. destruct Hp as [Hp|Hp]; [congruence|].
+    unfold msinit in Hp. cbn [msrun msstep hd p1 p2 p_l0 p_wsrc] in Hp.
+    rewrite (sstep_init_trial W C _ d1 (sinit_consistent W C c)), (sstep_init_trial W C _ d2 (sinit_consistent W C c)), Ep in Hp.
+    cbn [fst ss_cur sinit] in Hp.
+    destruct (mseval2 W C MW (mkms W MW (trial_state W C c d1 None) (trial_state W C c d2 None) None None)
+                (m_ns0 MC) (m_x0 MC)) as [s2 r] eqn:Ee.
+    destruct r as [v|e]; [apply (Hno v); reflexivity | cbn in Hp; discriminate].
+Qed.
+
+End MultiFresh.
+
+Section MultiFreshModel.
+Variable W : world.
+Variable C : cfg.
+Variable MW : mworld W.
+Variable MC : mcfg.
+Hypothesis Hgrid : grid_ok W.
+Hypothesis Hfree : memo_free C = true.
+
+Theorem multi_eval_fresh s0 pre d1 d2 ns x :
+  m_profile MC = false \/
+  hd (MNone W MW) (mobservations W C MW MC (minit W C MW (msrc_after W s0 pre)) [MInit W d1 d2]) = MInitO W MW (Ok 0) ->
+  last (mobservations W C MW MC (minit W C MW s0) (pre ++ [MInit W d1 d2; MEval W ns x])) (MNone W MW) =
+  last (mobservations W C MW MC (minit W C MW (msrc_after W s0 pre)) [MInit W d1 d2; MEval W ns x]) (MNone W MW).
+Proof.
+  rewrite !(mrefines W C MW MC Hgrid Hfree). apply ms_eval_fresh.
+Qed.
+
+End MultiFreshModel.
